@@ -7,6 +7,7 @@ import (
 	"path/filepath"
 	"strings"
 	"testing"
+	"time"
 
 	"pgregory.net/rapid"
 
@@ -24,7 +25,8 @@ var recRelay = ev.New("C11", "relay-scenarios",
 		"Non-trivial: >=2 concurrent sessions reaching different target sockets with >=1 destination addressed by name; distinct key = configuration class").
 	Require("name-target", "ss2022-address-change", "fenced-garbage", "topology:peer", "topology:direct", "batch:no", "batch:sendmmsg",
 		"tour:name-to-other-name", "tour:name-to-failing-name:servfail", "tour:name-to-failing-name:nxdomain", "tour:failing-name-now-resolvable",
-		"tour:name-to-ip", "tour:ip-to-name", "tour:same-name-other-port", "drop-first:sendmmsg", "tunnel-target-only")
+		"tour:name-to-ip", "tour:ip-to-name", "tour:same-name-other-port", "drop-first:sendmmsg", "tunnel-target-only",
+		"garbage-first-then-valid-same-socket", "garbage-first:no", "garbage-first:sendmmsg")
 
 func workDir(t interface{ TempDir() string }) string {
 	if d := os.Getenv("VERIF_WORK"); d != "" {
@@ -160,6 +162,17 @@ func fixedPlans() []*plan {
 		}
 		return p
 	}
+	// the first datagram from each client address is garbage; then valid traffic, a rebind (garbage first
+	// again on the new socket), valid traffic
+	garbageFirstPlan := func(seed uint64, server, batch string, kind int) *plan {
+		return &plan{Seed: seed, ServerProto: server, BatchMode: batch, ClientProto: "direct", Topology: "direct", NSock: 3, Dests: dests(),
+			Sessions: []planSession{
+				{GarbageFirst: kind, A: []planOp{{Kind: "paced", Dest: 0, Alt: 3, N: 3, Fill: 10}, {Kind: "rebind"}, {Kind: "paced", Dest: 1, Alt: 1, N: 2}},
+					B: []planOp{{Kind: "paced", Dest: 4, Alt: 0, N: 2, Fill: 200}}},
+				{GarbageFirst: kind, A: []planOp{{Kind: "paced", Dest: 2, Alt: 2, N: 2}}, B: []planOp{{Kind: "rebind"}, {Kind: "paced", Dest: 2, Alt: 4, N: 2}}},
+				{A: []planOp{{Kind: "paced", Dest: 1, Alt: 1, N: 2}}},
+			}}
+	}
 	ss := "2022-blake3-aes-128-gcm"
 	return []*plan{
 		tourPlan(1, "socks5", "no", "direct", "direct", "servfail"),
@@ -170,6 +183,12 @@ func fixedPlans() []*plan {
 		dropPlan(13, "none", "sendmmsg", 2, false),
 		dropPlan(14, "direct", "sendmmsg", 3, true),
 		dropPlan(15, "socks5", "no", 1, false),
+		garbageFirstPlan(21, "socks5", "no", 3),       // FRAG != 0
+		garbageFirstPlan(22, "socks5", "sendmmsg", 2), // 2 bytes
+		garbageFirstPlan(23, "none", "sendmmsg", 5),   // truncated address
+		garbageFirstPlan(24, "none", "no", 1),         // empty datagram
+		garbageFirstPlan(25, ss, "no", 1),             // own packet, damaged body
+		garbageFirstPlan(26, ss, "sendmmsg", 1),
 	}
 }
 
@@ -177,7 +196,11 @@ func TestFixedRegressions(t *testing.T) {
 	dir := workDir(t)
 	for i, p := range fixedPlans() {
 		before := t.Failed()
+		t0 := time.Now()
 		checkPlan(t, p, dir)
+		if os.Getenv("VERIF_DEBUG") != "" {
+			fmt.Fprintf(os.Stderr, "fixed plan %d (%s/%s seed %d): %v\n", i, p.ServerProto, p.BatchMode, p.Seed, time.Since(t0).Round(time.Millisecond))
+		}
 		if !before && t.Failed() {
 			t.Fatalf("fixed plan %d failed", i)
 		}
